@@ -1,6 +1,6 @@
 #!/bin/sh
 # runs every claimed check's quick command; prints one line per check
-cd /verif
+cd "$(dirname "$0")"
 for c in $(python3 -c "import json;print(' '.join(x['property_id'] for x in json.load(open('MANIFEST.json'))['checks']))") "$@"; do
   s=$(date +%s)
   out=$(./check $c quick 2>&1); code=$?
